@@ -293,6 +293,7 @@ def check(tier):
                          'a path of validate() returns the number without passing any check digit comparison: every check character is accepted on that path')
         if not ung:
             rep.ok('C05.gate', '%s validate' % file, 'every return is dominated by a checksum gate')
+        exemptions(rep, prog, vm, vfn, file, mn)
     npad = padding_invariance(rep, prog, tier)
     if npad < 1:
         rep.error('C05.padding matched no zero-padding compact() with a public generator (gr.vat confirmed on the reference tree)')
@@ -313,6 +314,52 @@ def check(tier):
     rep.not_decided = ['arithmetic equality of generator and validator where validate() applies checksum(number) == constant instead of the generator',
                        'frozen un-gated returns: ' + '; '.join('%s (%s)' % kv for kv in UNGATED.items())]
     return rep.finish()
+
+
+# checksum comparisons that sit under a test of the number's own characters against a constant list (confirmed by reading)
+EXEMPT_OK = {
+}
+
+
+def exemptions(rep, prog, vm, vfn, file, mn):
+    """C05.gate (exemption): a checksum comparison guarded by `<part of the number> not in <constant list>` (or `!= <constant>`)
+    exempts every number on that list from the check digit rule: any check character is accepted for them."""
+    m = prog.mods[vm]
+    par = parents_of(vfn)
+    numvars = {a.arg for a in vfn.args.args[:1]}
+
+    def about_number(e):
+        while isinstance(e, ast.Subscript):
+            e = e.value
+        return isinstance(e, ast.Name) and e.id in numvars
+
+    def constant_list(e):
+        if isinstance(e, (ast.Tuple, ast.List, ast.Set)):
+            return all(isinstance(x, ast.Constant) for x in e.elts)
+        if isinstance(e, ast.Constant) and isinstance(e.value, str):
+            return True
+        return isinstance(e, ast.Name) and e.id in m.consts and isinstance(m.consts[e.id], (tuple, list, set, frozenset, dict, str))
+    for st in ast.walk(vfn):
+        if not raises_checksum(st):
+            continue
+        node = st
+        while node in par:
+            parent = par[node]
+            if isinstance(parent, ast.If) and node is not parent.test:
+                inbody = any(node is x for x in parent.body)
+                conj = parent.test.values if isinstance(parent.test, ast.BoolOp) and isinstance(parent.test.op, ast.And) else [parent.test]
+                for c in conj if inbody else []:
+                    if isinstance(c, ast.Compare) and len(c.ops) == 1 and isinstance(c.ops[0], (ast.NotIn, ast.NotEq)) and about_number(c.left) \
+                            and constant_list(c.comparators[0]) and isinstance(c.left, (ast.Subscript, ast.Name)) \
+                            and not (isinstance(c.left, ast.Subscript) and not isinstance(c.left.slice, ast.Slice) and isinstance(c.ops[0], ast.NotEq)):
+                        key = (mn, src(c))
+                        if key in EXEMPT_OK:
+                            rep.undecide('C05.gate', '%s:%d validate' % (file, parent.lineno), 'frozen exemption: ' + EXEMPT_OK[key])
+                        else:
+                            rep.fail('C05.gate', file, vfn.name, '%s guards `%s`' % (src(c), src(st.test)[:60]), parent.lineno,
+                                     'the check digit comparison only happens when %s: for the numbers on that list every check character is accepted'
+                                     % src(c))
+            node = parent
 
 
 def disjoint_check(rep, prog, file, fn, call, other, st, gkey):
@@ -337,6 +384,32 @@ def disjoint_check(rep, prog, file, fn, call, other, st, gkey):
     # whole number handed over: the generator must slice the check position away itself
     gfn = prog.mods[gkey[0]].funcs[gkey[1]]
     p = gfn.args.args[0].arg if gfn.args.args else None
+    # with a fixed length gate before the comparison, every slice the generator takes of its argument is an absolute interval:
+    # none may reach into the compared position
+    if isinstance(arg, ast.Name) and iv2 and iv2[0] == arg.id and p is not None:
+        L = None
+        for n in ast.walk(fn):
+            if isinstance(n, ast.If) and getattr(n, 'lineno', 0) < st.lineno and isinstance(n.test, ast.Compare) and len(n.test.ops) == 1 \
+                    and isinstance(n.test.ops[0], ast.NotEq) and src(n.test.left) == 'len(%s)' % arg.id and isinstance(n.test.comparators[0], ast.Constant) \
+                    and isinstance(n.test.comparators[0].value, int) and any(isinstance(x, ast.Raise) for x in n.body):
+                L = n.test.comparators[0].value
+        rebound = any(isinstance(x, ast.Name) and x.id == p and isinstance(x.ctx, ast.Store) for x in ast.walk(gfn))
+        if L is not None and not rebound:
+            def absolute(b):
+                return b[1] if b[0] == 's' else L + b[1]
+            c0, c1 = absolute(iv2[1]), absolute(iv2[2])
+            for x in ast.walk(gfn):
+                if isinstance(x, ast.Subscript) and isinstance(x.value, ast.Name) and x.value.id == p:
+                    ivg = interval(x)
+                    if ivg is None:
+                        continue
+                    g0, g1 = absolute(ivg[1]), min(absolute(ivg[2]), L)
+                    if g0 < c1 and c0 < g1:
+                        rep.fail('C05.disjoint', rel(prog.mods[gkey[0]].path), gkey[1], '%s (compared: %s, length %d)' % (src(x), o, L), x.lineno,
+                                 'validate() hands the whole %d-character number to %s() and compares the result with %s, but the generator reads %s, '
+                                 'which reaches into the compared position: for a payload without check digits it computes something else than for the '
+                                 'full number, so the digits it generates are rejected' % (L, gkey[1], o, src(x)))
+                        return
     body = src(gfn)
     sliced = p is not None and (re.search(r'\b%s\[[^\]]*:-\d+\]' % p, body) or re.search(r'\b%s\[:\d+\]' % p, body) or re.search(r'\b%s\[\d+:\d+\]' % p, body)
                                 or re.search(r'zip\([^)]*\b%s\b' % p, body) or re.search(r'\b%s = compact\(%s\)' % (p, p), body)
